@@ -315,6 +315,23 @@ impl Scenario for C05 {
                     &["interchain_transfer_sent", "gas_paid", "contract_called", "interchain_transfer_received"],
                 );
                 out.expect(r.is_ok(), "inbound.announcement", || truncate(&r.unwrap_err(), 700));
+                if !data.is_empty() {
+                    // the receiving app is called exactly once with exactly the announced arguments
+                    let tok_addr = self.token_addr(ctx, tix);
+                    let r = match_events(
+                        &call.events,
+                        &[EvPat {
+                            contract: iw.sc(&iw.app),
+                            name: "app_executed",
+                            must: vec![sstr(X), sstr(&mid), sbytes(b"remote-sender"), sbytes(&data), sbytes(&tid), w.sc_addr_val(tok_addr), si128(x)],
+                        }],
+                        &["app_executed"],
+                    );
+                    out.expect(r.is_ok(), "inbound.app-call-arguments", || truncate(&r.unwrap_err(), 700));
+                } else {
+                    let n = call.events.iter().filter(|e| e.name() == "app_executed").count();
+                    out.expect(n == 0, "inbound.app-called-without-data", || format!("{} app_executed events", n));
+                }
             }
         }
     }
